@@ -335,7 +335,8 @@ func propFaults(t *rapid.T) {
 		kit.WaitUntil(5*time.Second, func() bool { return kit.Quiesced(s.a, p) })
 	}
 	// notifications are routed asynchronously by the connection's workers: allow them to land
-	kit.WaitUntil(3*time.Second, func() bool {
+	// (returns at once when they have; the long limit only matters on a very busy machine)
+	kit.WaitUntil(12*time.Second, func() bool {
 		mu.Lock()
 		defer mu.Unlock()
 		for _, first := range observers {
